@@ -321,7 +321,15 @@ func selectionTables(h H, rule string) {
 			for _, c := range hostCases(n) {
 				c := c
 				av := c.avail
-				for r0 := int64(0); r0 < int64(n) && bad == ""; r0++ {
+				// every residue of the counter, and the two values before it wraps around
+				counters := []int64{1<<32 - 2, 1<<32 - 1}
+				for r0 := int64(0); r0 < int64(n); r0++ {
+					counters = append(counters, r0)
+				}
+				for _, r0 := range counters {
+					if bad != "" {
+						break
+					}
 					env := newEnv(c, 0)
 					env.noFork = true
 					pol := &aobj{name: "policy", typ: polT, f: map[string]aval{"robin": aint(r0)}}
@@ -344,7 +352,7 @@ func selectionTables(h H, rule string) {
 							bad = fmt.Sprintf("%s counter=%d call %d: want an available backend, got %s %s", descCase(c), r0, k+1, describeAval(res), und)
 							break
 						}
-						if k == 0 && any {
+						if k == 0 && any && r0 < int64(n) {
 							if want := firstAvailFrom(av, int(r0+1)%n); got != want {
 								bad = fmt.Sprintf("%s counter=%d: want the next available backend after the counter (host %d), got host %d", descCase(c), r0, want, got)
 								break
@@ -359,7 +367,7 @@ func selectionTables(h H, rule string) {
 				}
 			}
 		}
-		r.Check(bad == "", rule, "(*proxy.RoundRobin).Select/table", fn.Pos(), "round_robin returns the next available backend after its counter; with all n backends available, n consecutive selections return n different backends (an even rotation)", fmt.Sprintf("%d evaluations", nrun), bad)
+		r.Check(bad == "", rule, "(*proxy.RoundRobin).Select/table", fn.Pos(), "round_robin returns the next available backend after its counter (an available one also when the counter is about to wrap around); with all n backends available, n consecutive selections return n different backends (an even rotation)", fmt.Sprintf("%d evaluations", nrun), bad)
 	}
 	// --- the policies that key by a request attribute, and the upstream's own Select
 	reqT := func(fn *ssa.Function, param int) types.Type { return fn.Params[param].Type().(*types.Pointer).Elem() }
